@@ -458,7 +458,10 @@ def correspond(ctx, facts, batch):
                 m = tensor_mesh(rng, which, shear=True, graded=rng.random() < 0.4)
                 ms = m.to_meshtri() if which == 'quad' else m.to_meshtet()
                 ncand = 5 if which == 'quad' else 10
-                pool = mesh_points(m, rng, kinds=('interior', 'outside'), per_kind=10)
+                # robustly decidable points: strictly inside a SIMPLEX of the split (a point inside the cell but on a
+                # facet of its split - e.g. on the long diagonal of a hexahedron - is subject to the listed finding
+                # F11 and is exercised, under its key, by the oracle, not by this exact correspondence)
+                pool = mesh_points(ms, rng, kinds=('interior', 'outside'), per_kind=10)
                 for _ in range(ctx.n(4, 10)):
                     k = rng.randrange(1, 5)
                     sel = [p for p in pool if p[0] == 'interior'] if rng.random() < 0.7 else pool
@@ -730,8 +733,11 @@ def check_finder_mesh(ctx, m, label, rng, per_kind, stats, extra=()):
     nt = m.t.shape[1]
     pts = mesh_points(m, rng, per_kind=per_kind) + list(extra)
     cname = type(m).__name__
+    located_alone = set()
     for kind, x in pts:
         r = run_finder(m, [x])
+        if r[0] == 'ok':
+            located_alone.add(tuple(x))
         ctx.count((label, cname, kind, tuple(map(str, x)), m.p.tobytes(), m.t.tobytes()), nontrivial=nt >= 2)
         ctx.hist('finder_point_kind', f'{cname}:{kind}')
         stats['points'] += 1
@@ -763,8 +769,10 @@ def check_finder_mesh(ctx, m, label, rng, per_kind, stats, extra=()):
             elif kind != 'notch':
                 ctx.broke('harness', 'c14-point-generator', f'{kind} point {fl(x)} of {cname} is in no cell')
     # batches: order / repetition must not matter for validity
-    good = [x for k, x in pts if k == 'interior']
-    for _ in range(3):
+    # (only points the finder locates when asked alone: an interior point of a hexahedron / prism / quadrilateral on a
+    # facet of its simplex split can raise by the listed finding F11, which is keyed above, not here)
+    good = [x for k, x in pts if k == 'interior' and tuple(x) in located_alone]
+    for _ in range(3 if good else 0):
         b = [rng.choice(good) for _ in range(rng.randrange(2, 7))]
         r = run_finder(m, b)
         stats['batches'] += 1
